@@ -216,12 +216,22 @@ func vsGenSpk(r *rand.Rand) (bool, []int) {
 }
 
 func vsGenHist(r *rand.Rand) vsHist {
-	h := vsHist{Ignore: r.Intn(4) == 0}
+	h := vsHist{Ignore: r.Intn(3) == 0}
+	// "labelled" histories: the speaker ignores the exclude label and every node carries it
+	// throughout; only the NetworkUnavailable condition of the nodes flips
+	labelled := h.Ignore && r.Intn(2) == 0
+	genNode := func(idx int) *vsNode {
+		n := vsGenNode(r, idx)
+		if labelled {
+			n.Excl = true
+		}
+		return n
+	}
 	h.Disabled, h.Speakers = vsGenSpk(r)
 	var lastNode [3]*vsNode
 	for i := 0; i < 3; i++ {
-		if r.Intn(7) != 0 {
-			lastNode[i] = vsGenNode(r, i)
+		if r.Intn(7) != 0 || (labelled && i == 0) {
+			lastNode[i] = genNode(i)
 			h.Evs = append(h.Evs, vsEv{Op: "node", Node: lastNode[i]})
 		}
 	}
@@ -304,10 +314,10 @@ func vsGenHist(r *rand.Rand) vsHist {
 			if r.Intn(2) == 0 {
 				idx = 0
 			}
-			nd := vsGenNode(r, idx)
-			if lastNode[idx] != nil && r.Intn(2) == 0 { // flip one flag of a known node
+			nd := genNode(idx)
+			if lastNode[idx] != nil && (labelled || r.Intn(2) == 0) { // flip one flag of a known node
 				c := *lastNode[idx]
-				if r.Intn(2) == 0 {
+				if labelled || r.Intn(2) == 0 {
 					c.Unavail = !c.Unavail
 				} else {
 					c.Excl = !c.Excl
@@ -322,6 +332,20 @@ func vsGenHist(r *rand.Rand) vsHist {
 		default:
 			h.Evs = append(h.Evs, vsEv{Op: "resync"})
 		}
+	}
+	// labelled histories end right after a flip of this node's NetworkUnavailable condition (label unchanged)
+	if labelled && lastNode[0] != nil {
+		c := *lastNode[0]
+		c.Unavail = !c.Unavail
+		lastNode[0] = &c
+		h.Evs = append(h.Evs, vsEv{Op: "node", Node: &c})
+		if r.Intn(2) == 0 {
+			d := c
+			d.Unavail = !d.Unavail
+			lastNode[0] = &d
+			h.Evs = append(h.Evs, vsEv{Op: "node", Node: &d})
+		}
+		return h
 	}
 	// one history in three ends right after label-only updates of this node (nothing repairs the state afterwards)
 	if r.Intn(3) == 0 {
@@ -971,6 +995,21 @@ func TestVerifSpk(t *testing.T) {
 	}}
 	id++
 	vsRunHistory(out, id, "corpus-selector-starts-matching", selPeer, r)
+	// ignoreExcludeLB: this node carries the exclude label throughout and announces (layer 2 and BGP);
+	// its network goes away and comes back: each flip must re-run the decisions
+	lblNode := func(un bool) *vsNode { return &vsNode{Idx: 0, Excl: true, Unavail: un, LblVal: 1} }
+	labelledHist := vsHist{Ignore: true, Speakers: []int{0, 1}, Evs: []vsEv{
+		{Op: "node", Node: lblNode(false)},
+		{Op: "node", Node: &vsNode{Idx: 1, Excl: true}},
+		{Op: "cfg", Cfg: &vsCfg{Pools: []vsPool{{CIDRs: []string{"10.20.30.0/24"}, BGP: bgpAdv, L2: []vsL2Adv{{Nodes: []int{0}, All: true}}}},
+			Peers: []vbPeer{{Name: 0, Sels: [][][2]int{}}}}},
+		{Op: "svc", Name: 0, Svc: &vsSvc{LB: true, IPs: []string{"10.20.30.1"}, Eps: eps}},
+		{Op: "node", Node: lblNode(true)},
+		{Op: "node", Node: lblNode(false)},
+		{Op: "node", Node: lblNode(true)},
+	}}
+	id++
+	vsRunHistory(out, id, "corpus-labelled-node-network-flips", labelledHist, r)
 	// a configuration that orphans an announced address is refused, then the address changes and it is accepted
 	refuse := vsHist{Speakers: []int{0}, Evs: []vsEv{
 		{Op: "node", Node: &vsNode{Idx: 0}},
